@@ -4,6 +4,7 @@ import (
 	"bufio"
 	"bytes"
 	"io"
+	"time"
 
 	"github.com/nlnwa/gowarc/v2/internal/diskbuffer"
 )
@@ -105,3 +106,6 @@ func VerifDigestEncoding(e int) WarcRecordOption { return WithDefaultDigestEncod
 
 // VerifSkipParseBlock is WithSkipParseBlock (kept separate so that a change of that option is visible).
 func VerifSkipParseBlock() WarcRecordOption { return WithSkipParseBlock() }
+
+// VerifSetNow fixes the clock used for WARC-Date of warcinfo records and for {ts} in file names.
+func VerifSetNow(t time.Time) { now = func() time.Time { return t } }
